@@ -195,7 +195,7 @@ func (e *Engine) checkAllRaw(s *Sys) *Violation {
 	if v := e.checkRegistry(s); v != nil {
 		return v
 	}
-	if err := w.VerifCheckInvariants(); err != nil {
+	if err := worldInvariants(w); err != nil {
 		if !e.suspect {
 			e.suspect = true
 			e.St.Suspect++
